@@ -23,7 +23,8 @@ DRIVER = "C01"
 RULE = ("operation histories (add/remove/remove()/configure/level/enable/disable/log, ~8 % malformed calls) over the "
         "module-name alphabet {'', None, a, ab, a.b, a.bc, a.b.c, 'a.', a..b, .a, b}, thresholds and log levels around "
         "the level numbers, filters none/''/name/dict/callable, ~12 % of the sinks with a stop() that raises (fault inside "
-        "remove/remove()/configure); every op's observable (returned id, error kind, ordered "
+        "remove/remove()/configure), ~30 % of the handlers on a non-default emit path (colorize=True, markup or function format, "
+        "catch=True), levels created / updated at run time with or without colour or icon and used by NAME; every op's observable (returned id, error kind, ordered "
         "list of receiving handler ids, lazy evaluation counts) is compared between implementation, Python spec oracle "
         "and Lean model.  non-trivial = the history contains a delivering log and an enable/disable issued after a "
         "log from a module that call affects; distinct by the whole history")
@@ -91,7 +92,8 @@ def l_no(n):
 def l_op(op):
     t = op[0]
     if t == "add":
-        return "add %s %s %d" % (l_level(op[1]), l_filter(op[2]), 1 if stop_fails(op) else 0)
+        return "add %s %s %d %d" % (l_level(op[1]), l_filter(op[2]), 1 if stop_fails(op) else 0,
+                                    1 if precolorizes(op) else 0)
     if t == "rm":
         return "rm %d" % op[1]
     if t in ("rmall", "rmbad", "levelbad", "enbad", "disbad"):
@@ -110,6 +112,25 @@ def l_op(op):
 def stop_fails(op):
     """["add", level, filter, True]: the sink object's stop() raises OSError (a fault injected into remove)"""
     return len(op) > 3 and bool(op[3])
+
+
+def emit_profile(op):
+    """["add", level, filter, stop_fails, {"colorize": bool, "fmt": "str"|"markup"|"func", "catch": bool}]: options of
+    add() that select the code path of Handler.emit AFTER the threshold/filter gate; the property does not depend
+    on them (every admitted message must still arrive exactly once)"""
+    prof = {"colorize": False, "fmt": "str", "catch": False}
+    if len(op) > 4 and isinstance(op[4], dict):
+        prof.update(op[4])
+    return prof
+
+
+def precolorizes(op):
+    """the handler keeps one pre-colourised format per level name (colorize=True and a string format)"""
+    prof = emit_profile(op)
+    return bool(prof["colorize"]) and prof["fmt"] != "func"
+
+
+FORMATS = {"str": "{message}", "markup": "<level>{level.name: <8}</level> <cyan>{name}</cyan> {level.icon} {message}"}
 
 
 def line_of(history):
@@ -184,8 +205,10 @@ class Impl:
         return lambda m: ev.append(label)
 
     def _add_kwargs(self, op):
+        prof = emit_profile(op)
+        fmt = FORMATS.get(prof["fmt"]) or (lambda record: "{message}\n")
         return dict(sink=self._sink(stop_fails(op)), level=py_level(op[1]), filter=py_filter(op[2]),
-                    format="{message}", colorize=False, catch=False)
+                    format=fmt, colorize=bool(prof["colorize"]), catch=bool(prof["catch"]))
 
     def do(self, op):
         try:
@@ -209,7 +232,9 @@ class Impl:
                 kw["no"] = op[2][1]
             elif op[2][0] == "bad":
                 kw["no"] = "15"
-            if op[3]:
+            if op[3] == "icon":
+                kw["icon"] = "@"
+            elif op[3]:
                 kw["color"] = "<red>"
             lg.level(op[1], **kw); return "ok"
         if t == "levelbad":
@@ -254,7 +279,9 @@ class Impl:
                     d["no"] = s[2][1]
                 elif s[2][0] == "bad":
                     d["no"] = "15"
-                if s[3]:
+                if s[3] == "icon":
+                    d["icon"] = "@"
+                elif s[3]:
                     d["color"] = "<red>"
                 levels.append(d)
             kw["levels"] = levels
@@ -474,7 +501,7 @@ def g_level_arg(rng, malformed=False):
             return ["i", -rng.range(1, 3)]
         return ["bad", rng.below(3)]
     if rng.chance(55):
-        return ["n", rng.choice(LEVEL_NAMES[:7] if rng.chance(85) else LEVEL_NAMES)]
+        return ["n", rng.choice(LEVEL_NAMES[:7] if rng.chance(65) else ["NEW", "N2", "NEW", "N2", "INFO"])]
     return ["i", rng.choice(NUMS)]
 
 
@@ -518,8 +545,12 @@ def g_add(rng, focus, malformed=False):
     if rng.chance(35):
         lvl = ["i", rng.choice([0, 5, 10])]       # low thresholds so that most logs deliver
     op = ["add", lvl, g_filter(rng, focus)]
-    if rng.chance(12):
-        op.append(True)                            # sink whose stop() raises
+    stop = rng.chance(12)                          # sink whose stop() raises
+    if rng.chance(30):                             # a non-default emit path: colours, markup, format function, catch
+        op += [stop, {"colorize": rng.chance(65), "fmt": rng.choice(["str", "markup", "markup", "func"]),
+                      "catch": rng.chance(50)}]
+    elif stop:
+        op.append(True)
     return op
 
 
@@ -528,14 +559,16 @@ def g_levelop(rng, malformed=False):
         k = rng.below(5)
         return [["levelbad"], ["level", "NOPE", ["none"], False], ["level", "INFO", ["i", 21], False],
                 ["level", "N3", ["bad"], False], ["level", "N4", ["i", -5], True]][k]
-    k = rng.below(4)
+    k = rng.below(5)
     if k == 0:
         return ["level", rng.choice(["NEW", "N2"]), ["i", rng.choice(NUMS)], rng.chance(30)]
     if k == 1:
-        return ["level", rng.choice(LEVEL_NAMES[:7]), ["none"], True]
+        return ["level", rng.choice(LEVEL_NAMES[:7]), ["none"], rng.choice([True, "icon"])]
     if k == 2:
-        return ["level", rng.choice(LEVEL_NAMES), ["none"], rng.chance(50)]
-    return ["level", rng.choice(["NEW", "N2"]), ["i", rng.choice(NUMS)], False]
+        return ["level", rng.choice(LEVEL_NAMES), ["none"], rng.choice([False, True, "icon"])]
+    if k == 3:
+        return ["level", rng.choice(["NEW", "N2"]), ["i", rng.choice(NUMS)], "icon" if rng.chance(40) else False]
+    return ["level", rng.choice(["NEW", "N2"]), ["i", rng.choice(NUMS)], False]      # created without a colour
 
 
 def gen_history(rng):
@@ -661,6 +694,11 @@ def check_histories(ctx, drv, histories, tag, with_model=True):
             ctx.stat("op:" + op[0])
             if op[0] == "add" and stop_fails(op):
                 ctx.stat("fault:sink_stop_raises")
+            if op[0] == "add" and len(op) > 4:
+                pr = emit_profile(op)
+                ctx.stat("emit:colorize=%d,fmt=%s,catch=%d" % (pr["colorize"], pr["fmt"], pr["catch"]))
+            if op[0] == "log" and op[1][0] == "n" and op[1][1] in ("NEW", "N2") and not o.startswith("err"):
+                ctx.stat("log:by_name_of_runtime_level")
             if o.startswith("err"):
                 ctx.stat("result:" + o.replace(" ", ":"))
             elif op[0] == "log":
